@@ -201,6 +201,16 @@ CLAIMED["C04"] = dict(
     ref="DESIGN.md section 2 (C04-C09) and 1.5 (arena)",
     technique="TLA+ per-macro semantics evaluated by TLC as oracle for arena behaviours (device-driven replay of macro sequences in the real assembled library)")
 
+CLAIMED["C05"] = dict(
+    text="Same machinery as C04 on the bit namespace: StlSem.tla actions for bit.zero/one/mov/swap, xor/xor_zero/or/and/not, if/if0/if1/cmp, "
+         "shr/shl/shra/ror/rol, inc/dec/neg/add/sub, inc1/add1 (carry in/out), mul/mul_loop/mul10, div/div_loop/idiv/idiv_loop/div10; arenas at "
+         "w=64/32/16 (w=16 holds a reduced block set: 2048 ops of address space); ALL ordered pairs of macro instances plus seeded longer sequences; "
+         "TLC (Trace_Stl) prescribes the state after every step; all 70 bits of every variable, branch, hidden cells and op cleanliness compared.",
+    note="Trusted: StlSem.tla as transcription of the documentation (bit.neg is taken as negation: its doc line repeats dec's; inc1/add1 follow the "
+         "'carry is both input and output' header). Operand values are seeded samples with boundary bias.",
+    ref="DESIGN.md section 2 (C04-C09)",
+    technique="TLA+ per-macro semantics evaluated by TLC as oracle for arena behaviours")
+
 NOT_YET = {}
 
 
